@@ -42,6 +42,7 @@ def parseClient (t : String) : Option Client :=
     else if b == "a" then some ⟨n, .abrupt⟩
     else if b == "i" then some ⟨n, .idle⟩
     else if b == "h" then some ⟨n, .half⟩
+    else if b == "s" then some ⟨n, .stall⟩
     else none
 
 def parseScenario (a : List String) : Option Scenario :=
